@@ -96,6 +96,8 @@ def gen_program(r, errors=False):
 
 
 HAND = [
+    # white space between the macro name and its argument list may hold line breaks (22.5.1)
+    "`define ADD(a,b) a+b\nx = `ADD\n(1,2);\ny = `ADD \r\n  (3, 4);\n`define TWICE(z) `ADD\\\n(z,z)\n`TWICE(5)\n",
     # a default text spelled like another formal (or like the formal itself) is text, not a usage of that formal
     "`define M(a, b=a) [a|b]\n`M(1)\n`M(1,2)\n`M(1,)\n",
     "`define N(x=y, y=x) <x y>\n`N()\n`N(1)\n`N(,2)\n`N(1,2)\n",
